@@ -19,6 +19,15 @@ CLAIMED = {
                 "run of the real pipeline on 216 generated cases stands in for the composition (labelled bounded, not counted).",
         "note": "Partial: selection, not rendering. Recursive prune() calls and FortranBase.iterator use assumed contracts.",
     },
+    "C07": {
+        "engines": ["A", "Bd"],
+        "technique": "contract-based deductive verification: block contract on the host-association part of FortranCodeUnit.correlate with name tables as "
+                     "aliasable dict objects (frame + overlay postconditions, loop invariants as ground-unfolded folds), z3 array theory",
+        "text": "Proved for every heap: the host-association block builds exactly 'host tables overlaid by the unit's own declarations (locals win)' for "
+                "procedures, abstract interfaces, types and variables, and leaves every table of the parent scope unchanged (no leak to host or siblings). "
+                "The individual resolvers and USE merging are outside this check (bounded pipeline cases only).",
+        "note": "Partial: one block of correlate(); resolvers not under contract.",
+    },
 }
 _NB = "no obligations built yet for this property in the current commit (planned in DESIGN.md section 6; technique not switched)"
-NOT_APPLICABLE = {p: _NB for p in ["C01", "C03", "C04", "C06", "C07", "C08", "C09", "C10", "C11", "C12", "C13", "C14", "C15", "C16", "C17", "C18", "C19", "C20"]}
+NOT_APPLICABLE = {p: _NB for p in ["C01", "C03", "C04", "C06", "C08", "C09", "C10", "C11", "C12", "C13", "C14", "C15", "C16", "C17", "C18", "C19", "C20"]}
